@@ -122,8 +122,33 @@ def literal_of(prog, n, depth=3):
     return None
 
 
+LETS = {}   # lid -> init expression of the immutable single-binding lets of the function being described
+
+
+def use_lets(fn):
+    """Install the let environment of `fn`: `let x = e;` with an immutable plain binding makes later uses of
+    x mean e (so hoisting an argument into a local does not change its description)."""
+    global LETS
+    LETS = {}
+    if fn is None or fn.body is None:
+        return
+    for st in core.walk_lets(fn.body):
+        p = st.get("pat") or {}
+        if p.get("k") == "Binding" and "Mut" not in p.get("mode", "").split(",")[-1] and st.get("init") is not None and not st.get("els"):
+            LETS[p["lid"]] = st["init"]
+
+
+def _unlet(n, depth=0):
+    n0 = core.strip(n)
+    while n0.get("k") == "Path" and n0.get("res") == "local" and n0.get("lid") in LETS and depth < 8:
+        n0 = core.strip(LETS[n0["lid"]])
+        depth += 1
+    return n0
+
+
 def argdesc(prog, n):
     """Semantic role of an argument expression: ('const', value) | ('len', 'root.path') | ('place', 'root.path') | ('expr', fingerprint)"""
+    n = _unlet(n)
     v = literal_of(prog, n)
     if v is not None:
         return ("const", v)
